@@ -64,6 +64,18 @@ def check_radiate_args(case):
     if not math.hypot(full[0] - want[0], full[1] - want[1]) <= slack:
         raise Fail("radiations: rotation and scale-factor arguments do not rotate and scale the radiated vector",
                    expected=want, observed=full)
+    # each optional argument alone (the other left at its default)
+    only_k = sv.radiations(e1, n1, brg, d, psf=k)
+    want_k = (e1 + k * d * math.sin(math.radians(brg)), n1 + k * d * math.cos(math.radians(brg)))
+    if not math.hypot(only_k[0] - want_k[0], only_k[1] - want_k[1]) <= slack:
+        raise Fail("radiations: a scale factor given without a rotation does not scale the radiated vector", expected=want_k, observed=only_k)
+    only_r = sv.radiations(e1, n1, brg, d, rotation=rot)
+    want_r = (e1 + d * math.sin(math.radians(brg + rot)), n1 + d * math.cos(math.radians(brg + rot)))
+    if not math.hypot(only_r[0] - want_r[0], only_r[1] - want_r[1]) <= slack:
+        raise Fail("radiations: a rotation given without a scale factor does not rotate the radiated vector", expected=want_r, observed=only_r)
+    zero_rot = sv.radiations(e1, n1, brg, d, 0, k)
+    if not math.hypot(zero_rot[0] - want_k[0], zero_rot[1] - want_k[1]) <= slack:
+        raise Fail("radiations: rotation 0 with a scale factor does not scale the radiated vector", expected=want_k, observed=zero_rot)
     want0 = (e1 + d * math.sin(math.radians(brg)), n1 + d * math.cos(math.radians(brg)))
     if not math.hypot(plain[0] - want0[0], plain[1] - want0[1]) <= slack:
         raise Fail("radiations: point is not start + distance x (sin bearing, cos bearing)", expected=want0, observed=plain)
